@@ -55,6 +55,10 @@ CONFIGS = {
     "trace256": dict(cmake=[], cflags=TRACE, via="define", san="trace"),
     "trace255": dict(cmake=["-DFP_PRIME=255"], cflags=TRACE, via="define", san="trace"),
     "trace381": dict(cmake=["-DFP_PRIME=381"], cflags=TRACE, via="define", san="trace"),
+    "asan256ppb": dict(cmake=["-DPP_METHD=BASIC;OATEP"], cflags=SAN_GATE),      # non-lazy Miller-loop variants
+    "asan256x": dict(cmake=["-DFPX_METHD=BASIC;BASIC;BASIC", "-DPP_METHD=BASIC;OATEP", "-DEP_METHD=BASIC;LWNAF;COMBS;INTER;SSWUM",
+                            "-DEB_METHD=BASIC;LWNAF;COMBS;INTER", "-DFB_METHD=BASIC;QUICK;QUICK;QUICK;QUICK;QUICK;BASIC;SLIDE;QUICK"],
+                     cflags=SAN_GATE),   # alternative dispatch of the extension/pairing/curve layers
     "rsa-pkcs1": dict(cmake=["-DCP_RSAPD=PKCS1"], cflags=SAN_GATE),
     "rsa-basic": dict(cmake=["-DCP_RSAPD=BASIC"], cflags=SAN_GATE),
     "plain256": dict(cmake=[], cflags=PLAIN, san="none"),
